@@ -5,6 +5,7 @@ import (
 	"os"
 	"path/filepath"
 	"strings"
+	"time"
 )
 
 const thriftImport = "\t\"github.com/apache/thrift/lib/go/thrift\"\n"
@@ -66,7 +67,8 @@ func H_C02_read_%[1]s(n int) {
 // H_C02_unknown_%[1]s: an undeclared field of any wire type, inserted at any position, is skipped.
 func H_C02_unknown_%[1]s() {
 	zzLen = 1
-	v := zzSym_%[1]s(zzDepth)
+	var v *%[2]s
+	zzWithPresenceBudget(2, func() { v = zzSym_%[1]s(zzDepth) })
 	want := zzFrom_%[1]s(v)
 	id := zzrt.Int16("uid")
 	zzrt.Assume(!zzT_%[1]s.hasField(id))
@@ -88,7 +90,8 @@ func H_C02_retag_%[1]s(i int) {
 	}
 	zzLen = 1
 	f := zzSt_%[1]s.Fields[i]
-	v := zzSym_%[1]s(zzDepth)
+	var v *%[2]s
+	zzWithPresenceBudget(zzPresenceBudget, func() { v = zzSym_%[1]s(zzDepth) })
 	want := zzFrom_%[1]s(v)
 	if want.field(f.ID) == nil {
 		return
@@ -115,7 +118,8 @@ func H_C02_missing_%[1]s(i int) {
 	}
 	zzLen = 1
 	f := zzSt_%[1]s.Fields[i]
-	v := zzSym_%[1]s(zzDepth)
+	var v *%[2]s
+	zzWithPresenceBudget(zzPresenceBudget, func() { v = zzSym_%[1]s(zzDepth) })
 	want := zzFrom_%[1]s(v)
 	if want.field(f.ID) == nil {
 		return
@@ -194,9 +198,9 @@ func c02WriteRead(prog *MProgram) []Harness {
 
 func init() {
 	register(&Prop{
-		ID: "C02",
+		ID: "C02", QuickBudget: 25 * time.Minute, ThoroughBudget: 90 * time.Minute,
 		Functions: []string{"generated (*T).Write / Read / ReadFieldN / writeFieldN / IsSetX / CountSetFields for every struct-like of the corpus", "apache thrift v0.13.0 TBinaryProtocol + TMemoryBuffer (interpreted)", "reference codec zzEnc/zzDec (harness)"},
-		Bounds: "corpus a.thrift (7 struct-likes: all base types x requiredness, defaults, enums, typedefs, negative and >255 field ids, containers nested 2 deep, recursive struct, union, exception); every scalar leaf symbolic (full width), optional presence symbolic, strings/binaries and every container of length n (quick n in 0..1, thorough 0..2), recursion depth 1; unknown field: free i16 id, 11 wire types, every insertion position; retag / deletion of every declared field; union with 0 and 2 members; generator configurations: default, presentation-only options, naming_style golint/apache, keep_unknown_fields, enum_as_int_32",
+		Bounds: "corpus a.thrift (7 struct-likes: all base types x requiredness, defaults, enums, typedefs, negative and >255 field ids, containers nested 2 deep, recursive struct, union, exception); every scalar leaf symbolic (full width), optional presence symbolic (in the perturbation harnesses the first 2 (unknown field) or 4 (retag/missing) presence decisions of a value are symbolic, the rest alternate), strings/binaries and every container of length n (quick n in 0..1, thorough 0..2), recursion depth 1; struct elements with defaulted optional members inside lists, sets and maps; unknown field: free i16 id, 11 wire types, every insertion position; retag / deletion of every declared field; union with 0 and 2 members; generator configurations: default, presentation-only options, naming_style golint/apache, keep_unknown_fields, enum_as_int_32",
 		Assumptions: []string{"the programs dimension is the designed corpus (sampled), only values and perturbations are solver-decided", "value domain: required/default struct fields non-nil, union has exactly one arm (except in the refusal harness), set elements pairwise different",
 			"the Go identifier of an IDL name is its capitalised form (corpus naming)", "compact/JSON protocols are outside"},
 		Variants: []*Prop{
